@@ -22,17 +22,26 @@
 (* Variant = "code" is the header as it is; Variant = "nolock_push" is the     *)
 (* negative control (push_back without the lock_guard) which TLC must refute   *)
 (* on both Refines and NoRace.                                                 *)
+(* Readers: NReads calls of size() / empty() each by threads that do nothing   *)
+(* else, concurrently with everything (observers contending with observers).   *)
+(* Variant = "trylock_empty" is the negative control of that family: empty()   *)
+(* with std::try_to_lock answering "not empty" when the mutex is taken ("who    *)
+(* holds it must be pushing") - TLC must refute Refines: the holder may be     *)
+(* another observer, and empty() = FALSE on an empty buffer is a torn answer.  *)
 EXTENDS Integers, Sequences, FiniteSets, TLC
 
 CONSTANTS Producers,   \* producer thread ids (positive integers)
           NPush,       \* pushes per producer
           NOps,        \* concurrent consumer calls before the final consume()
-          Variant      \* "code" | "nolock_push"
+          Variant,     \* "code" | "nolock_push" | "trylock_empty"
+          Readers,     \* ids of threads that only call size() / empty() (observers; disjoint from Producers and {0})
+          NReads       \* calls per reader
 
 Consumer == 0
 Free     == -1
-Threads  == Producers \cup {Consumer}
+Threads  == Producers \cup {Consumer} \cup Readers
 Locking  == Variant # "nolock_push"
+TryLock  == Variant = "trylock_empty"
 
 (* --algorithm BufMech {
   variables buffer = <<>>,       \* std::vector<T> buffer                       (plain)
@@ -68,7 +77,10 @@ Locking  == Variant # "nolock_push"
    s_size:       last := [op |-> "size", arg |-> <<>>, res |-> Len(buffer)]; \*   return buffer.size();
    s_unlock:     mutex := Free;
                } or {
-   e_lock:       await mutex = Free; mutex := Consumer;                          \* empty(): lock_guard
+   e_lock:       if (TryLock) {                                              \* empty(): lock_guard   (negative control: try_to_lock)
+                   if (mutex = Free) { mutex := Consumer; }
+                   else { last := [op |-> "empty", arg |-> <<>>, res |-> FALSE]; goto c_next; };
+                 } else { await mutex = Free; mutex := Consumer; };
    e_empty:      last := [op |-> "empty", arg |-> <<>>, res |-> (Len(buffer) = 0)];
    e_unlock:     mutex := Free;
                };
@@ -81,13 +93,33 @@ Locking  == Variant # "nolock_push"
    f_unlock: mutex := Free;
    f_end:    last := [op |-> "end", arg |-> "buf", res |-> <<>>];            \* end of the execution
   }
+
+  process (reader \in Readers)
+    variables rk = 0;
+  {
+   r_loop:   while (rk < NReads) {
+               either {
+   rs_lock:      await mutex = Free; mutex := self;                             \* size(): lock_guard
+   rs_size:      last := [op |-> "size", arg |-> <<>>, res |-> Len(buffer)];
+   rs_unlock:    mutex := Free;
+               } or {
+   re_lock:      if (TryLock) {                                                  \* empty(): lock_guard   (negative control: try_to_lock)
+                   if (mutex = Free) { mutex := self; }
+                   else { last := [op |-> "empty", arg |-> <<>>, res |-> FALSE]; goto r_next; };
+                 } else { await mutex = Free; mutex := self; };
+   re_empty:     last := [op |-> "empty", arg |-> <<>>, res |-> (Len(buffer) = 0)];
+   re_unlock:    mutex := Free;
+               };
+   r_next:     rk := rk + 1;
+             };
+  }
 } *)
 \* BEGIN TRANSLATION
-VARIABLES pc, buffer, mutex, last, done, k, tmp, ops
+VARIABLES pc, buffer, mutex, last, done, k, tmp, ops, rk
 
-vars == << pc, buffer, mutex, last, done, k, tmp, ops >>
+vars == << pc, buffer, mutex, last, done, k, tmp, ops, rk >>
 
-ProcSet == (Producers) \cup {Consumer}
+ProcSet == (Producers) \cup {Consumer} \cup (Readers)
 
 Init == (* Global variables *)
         /\ buffer = <<>>
@@ -99,14 +131,17 @@ Init == (* Global variables *)
         /\ tmp = [self \in Producers |-> <<>>]
         (* Process cons *)
         /\ ops = 0
+        (* Process reader *)
+        /\ rk = [self \in Readers |-> 0]
         /\ pc = [self \in ProcSet |-> CASE self \in Producers -> "p_loop"
-                                        [] self = Consumer -> "c_loop"]
+                                        [] self = Consumer -> "c_loop"
+                                        [] self \in Readers -> "r_loop"]
 
 p_loop(self) == /\ pc[self] = "p_loop"
                 /\ IF k[self] < NPush
                       THEN /\ pc' = [pc EXCEPT ![self] = "p_lock"]
                       ELSE /\ pc' = [pc EXCEPT ![self] = "p_done"]
-                /\ UNCHANGED << buffer, mutex, last, done, k, tmp, ops >>
+                /\ UNCHANGED << buffer, mutex, last, done, k, tmp, ops, rk >>
 
 p_lock(self) == /\ pc[self] = "p_lock"
                 /\ IF Locking
@@ -115,18 +150,18 @@ p_lock(self) == /\ pc[self] = "p_lock"
                       ELSE /\ TRUE
                            /\ mutex' = mutex
                 /\ pc' = [pc EXCEPT ![self] = "p_rd"]
-                /\ UNCHANGED << buffer, last, done, k, tmp, ops >>
+                /\ UNCHANGED << buffer, last, done, k, tmp, ops, rk >>
 
 p_rd(self) == /\ pc[self] = "p_rd"
               /\ tmp' = [tmp EXCEPT ![self] = buffer]
               /\ pc' = [pc EXCEPT ![self] = "p_wr"]
-              /\ UNCHANGED << buffer, mutex, last, done, k, ops >>
+              /\ UNCHANGED << buffer, mutex, last, done, k, ops, rk >>
 
 p_wr(self) == /\ pc[self] = "p_wr"
               /\ buffer' = Append(tmp[self], <<self, k[self] + 1>>)
               /\ last' = [op |-> "push", arg |-> <<self, k[self] + 1>>, res |-> <<>>]
               /\ pc' = [pc EXCEPT ![self] = "p_unlock"]
-              /\ UNCHANGED << mutex, done, k, tmp, ops >>
+              /\ UNCHANGED << mutex, done, k, tmp, ops, rk >>
 
 p_unlock(self) == /\ pc[self] = "p_unlock"
                   /\ IF Locking
@@ -135,12 +170,12 @@ p_unlock(self) == /\ pc[self] = "p_unlock"
                              /\ mutex' = mutex
                   /\ k' = [k EXCEPT ![self] = k[self] + 1]
                   /\ pc' = [pc EXCEPT ![self] = "p_loop"]
-                  /\ UNCHANGED << buffer, last, done, tmp, ops >>
+                  /\ UNCHANGED << buffer, last, done, tmp, ops, rk >>
 
 p_done(self) == /\ pc[self] = "p_done"
                 /\ done' = (done \cup {self})
                 /\ pc' = [pc EXCEPT ![self] = "Done"]
-                /\ UNCHANGED << buffer, mutex, last, k, tmp, ops >>
+                /\ UNCHANGED << buffer, mutex, last, k, tmp, ops, rk >>
 
 prod(self) == p_loop(self) \/ p_lock(self) \/ p_rd(self) \/ p_wr(self)
                  \/ p_unlock(self) \/ p_done(self)
@@ -151,92 +186,158 @@ c_loop == /\ pc[Consumer] = "c_loop"
                         \/ /\ pc' = [pc EXCEPT ![Consumer] = "s_lock"]
                         \/ /\ pc' = [pc EXCEPT ![Consumer] = "e_lock"]
                 ELSE /\ pc' = [pc EXCEPT ![Consumer] = "f_join"]
-          /\ UNCHANGED << buffer, mutex, last, done, k, tmp, ops >>
+          /\ UNCHANGED << buffer, mutex, last, done, k, tmp, ops, rk >>
 
 c_next == /\ pc[Consumer] = "c_next"
           /\ ops' = ops + 1
           /\ pc' = [pc EXCEPT ![Consumer] = "c_loop"]
-          /\ UNCHANGED << buffer, mutex, last, done, k, tmp >>
+          /\ UNCHANGED << buffer, mutex, last, done, k, tmp, rk >>
 
 c_lock == /\ pc[Consumer] = "c_lock"
           /\ mutex = Free
           /\ mutex' = Consumer
           /\ pc' = [pc EXCEPT ![Consumer] = "c_move"]
-          /\ UNCHANGED << buffer, last, done, k, tmp, ops >>
+          /\ UNCHANGED << buffer, last, done, k, tmp, ops, rk >>
 
 c_move == /\ pc[Consumer] = "c_move"
           /\ last' = [op |-> "consume", arg |-> <<>>, res |-> buffer]
           /\ buffer' = <<>>
           /\ pc' = [pc EXCEPT ![Consumer] = "c_unlock"]
-          /\ UNCHANGED << mutex, done, k, tmp, ops >>
+          /\ UNCHANGED << mutex, done, k, tmp, ops, rk >>
 
 c_unlock == /\ pc[Consumer] = "c_unlock"
             /\ mutex' = Free
             /\ pc' = [pc EXCEPT ![Consumer] = "c_next"]
-            /\ UNCHANGED << buffer, last, done, k, tmp, ops >>
+            /\ UNCHANGED << buffer, last, done, k, tmp, ops, rk >>
 
 s_lock == /\ pc[Consumer] = "s_lock"
           /\ mutex = Free
           /\ mutex' = Consumer
           /\ pc' = [pc EXCEPT ![Consumer] = "s_size"]
-          /\ UNCHANGED << buffer, last, done, k, tmp, ops >>
+          /\ UNCHANGED << buffer, last, done, k, tmp, ops, rk >>
 
 s_size == /\ pc[Consumer] = "s_size"
           /\ last' = [op |-> "size", arg |-> <<>>, res |-> Len(buffer)]
           /\ pc' = [pc EXCEPT ![Consumer] = "s_unlock"]
-          /\ UNCHANGED << buffer, mutex, done, k, tmp, ops >>
+          /\ UNCHANGED << buffer, mutex, done, k, tmp, ops, rk >>
 
 s_unlock == /\ pc[Consumer] = "s_unlock"
             /\ mutex' = Free
             /\ pc' = [pc EXCEPT ![Consumer] = "c_next"]
-            /\ UNCHANGED << buffer, last, done, k, tmp, ops >>
+            /\ UNCHANGED << buffer, last, done, k, tmp, ops, rk >>
 
 e_lock == /\ pc[Consumer] = "e_lock"
-          /\ mutex = Free
-          /\ mutex' = Consumer
-          /\ pc' = [pc EXCEPT ![Consumer] = "e_empty"]
-          /\ UNCHANGED << buffer, last, done, k, tmp, ops >>
+          /\ IF TryLock
+                THEN /\ IF mutex = Free
+                           THEN /\ mutex' = Consumer
+                                /\ pc' = [pc EXCEPT ![Consumer] = "e_empty"]
+                                /\ last' = last
+                           ELSE /\ last' = [op |-> "empty", arg |-> <<>>, res |-> FALSE]
+                                /\ pc' = [pc EXCEPT ![Consumer] = "c_next"]
+                                /\ mutex' = mutex
+                ELSE /\ mutex = Free
+                     /\ mutex' = Consumer
+                     /\ pc' = [pc EXCEPT ![Consumer] = "e_empty"]
+                     /\ last' = last
+          /\ UNCHANGED << buffer, done, k, tmp, ops, rk >>
 
 e_empty == /\ pc[Consumer] = "e_empty"
            /\ last' = [op |-> "empty", arg |-> <<>>, res |-> (Len(buffer) = 0)]
            /\ pc' = [pc EXCEPT ![Consumer] = "e_unlock"]
-           /\ UNCHANGED << buffer, mutex, done, k, tmp, ops >>
+           /\ UNCHANGED << buffer, mutex, done, k, tmp, ops, rk >>
 
 e_unlock == /\ pc[Consumer] = "e_unlock"
             /\ mutex' = Free
             /\ pc' = [pc EXCEPT ![Consumer] = "c_next"]
-            /\ UNCHANGED << buffer, last, done, k, tmp, ops >>
+            /\ UNCHANGED << buffer, last, done, k, tmp, ops, rk >>
 
 f_join == /\ pc[Consumer] = "f_join"
           /\ done = Producers
           /\ pc' = [pc EXCEPT ![Consumer] = "f_lock"]
-          /\ UNCHANGED << buffer, mutex, last, done, k, tmp, ops >>
+          /\ UNCHANGED << buffer, mutex, last, done, k, tmp, ops, rk >>
 
 f_lock == /\ pc[Consumer] = "f_lock"
           /\ mutex = Free
           /\ mutex' = Consumer
           /\ pc' = [pc EXCEPT ![Consumer] = "f_move"]
-          /\ UNCHANGED << buffer, last, done, k, tmp, ops >>
+          /\ UNCHANGED << buffer, last, done, k, tmp, ops, rk >>
 
 f_move == /\ pc[Consumer] = "f_move"
           /\ last' = [op |-> "consume", arg |-> <<>>, res |-> buffer]
           /\ buffer' = <<>>
           /\ pc' = [pc EXCEPT ![Consumer] = "f_unlock"]
-          /\ UNCHANGED << mutex, done, k, tmp, ops >>
+          /\ UNCHANGED << mutex, done, k, tmp, ops, rk >>
 
 f_unlock == /\ pc[Consumer] = "f_unlock"
             /\ mutex' = Free
             /\ pc' = [pc EXCEPT ![Consumer] = "f_end"]
-            /\ UNCHANGED << buffer, last, done, k, tmp, ops >>
+            /\ UNCHANGED << buffer, last, done, k, tmp, ops, rk >>
 
 f_end == /\ pc[Consumer] = "f_end"
          /\ last' = [op |-> "end", arg |-> "buf", res |-> <<>>]
          /\ pc' = [pc EXCEPT ![Consumer] = "Done"]
-         /\ UNCHANGED << buffer, mutex, done, k, tmp, ops >>
+         /\ UNCHANGED << buffer, mutex, done, k, tmp, ops, rk >>
 
 cons == c_loop \/ c_next \/ c_lock \/ c_move \/ c_unlock \/ s_lock
            \/ s_size \/ s_unlock \/ e_lock \/ e_empty \/ e_unlock \/ f_join
            \/ f_lock \/ f_move \/ f_unlock \/ f_end
+
+r_loop(self) == /\ pc[self] = "r_loop"
+                /\ IF rk[self] < NReads
+                      THEN /\ \/ /\ pc' = [pc EXCEPT ![self] = "rs_lock"]
+                              \/ /\ pc' = [pc EXCEPT ![self] = "re_lock"]
+                      ELSE /\ pc' = [pc EXCEPT ![self] = "Done"]
+                /\ UNCHANGED << buffer, mutex, last, done, k, tmp, ops, rk >>
+
+r_next(self) == /\ pc[self] = "r_next"
+                /\ rk' = [rk EXCEPT ![self] = rk[self] + 1]
+                /\ pc' = [pc EXCEPT ![self] = "r_loop"]
+                /\ UNCHANGED << buffer, mutex, last, done, k, tmp, ops >>
+
+rs_lock(self) == /\ pc[self] = "rs_lock"
+                 /\ mutex = Free
+                 /\ mutex' = self
+                 /\ pc' = [pc EXCEPT ![self] = "rs_size"]
+                 /\ UNCHANGED << buffer, last, done, k, tmp, ops, rk >>
+
+rs_size(self) == /\ pc[self] = "rs_size"
+                 /\ last' = [op |-> "size", arg |-> <<>>, res |-> Len(buffer)]
+                 /\ pc' = [pc EXCEPT ![self] = "rs_unlock"]
+                 /\ UNCHANGED << buffer, mutex, done, k, tmp, ops, rk >>
+
+rs_unlock(self) == /\ pc[self] = "rs_unlock"
+                   /\ mutex' = Free
+                   /\ pc' = [pc EXCEPT ![self] = "r_next"]
+                   /\ UNCHANGED << buffer, last, done, k, tmp, ops, rk >>
+
+re_lock(self) == /\ pc[self] = "re_lock"
+                 /\ IF TryLock
+                       THEN /\ IF mutex = Free
+                                  THEN /\ mutex' = self
+                                       /\ pc' = [pc EXCEPT ![self] = "re_empty"]
+                                       /\ last' = last
+                                  ELSE /\ last' = [op |-> "empty", arg |-> <<>>, res |-> FALSE]
+                                       /\ pc' = [pc EXCEPT ![self] = "r_next"]
+                                       /\ mutex' = mutex
+                       ELSE /\ mutex = Free
+                            /\ mutex' = self
+                            /\ pc' = [pc EXCEPT ![self] = "re_empty"]
+                            /\ last' = last
+                 /\ UNCHANGED << buffer, done, k, tmp, ops, rk >>
+
+re_empty(self) == /\ pc[self] = "re_empty"
+                  /\ last' = [op |-> "empty", arg |-> <<>>, res |-> (Len(buffer) = 0)]
+                  /\ pc' = [pc EXCEPT ![self] = "re_unlock"]
+                  /\ UNCHANGED << buffer, mutex, done, k, tmp, ops, rk >>
+
+re_unlock(self) == /\ pc[self] = "re_unlock"
+                   /\ mutex' = Free
+                   /\ pc' = [pc EXCEPT ![self] = "r_next"]
+                   /\ UNCHANGED << buffer, last, done, k, tmp, ops, rk >>
+
+reader(self) == r_loop(self) \/ r_next(self) \/ rs_lock(self)
+                   \/ rs_size(self) \/ rs_unlock(self) \/ re_lock(self)
+                   \/ re_empty(self) \/ re_unlock(self)
 
 (* Allow infinite stuttering to prevent deadlock on termination. *)
 Terminating == /\ \A self \in ProcSet: pc[self] = "Done"
@@ -244,6 +345,7 @@ Terminating == /\ \A self \in ProcSet: pc[self] = "Done"
 
 Next == cons
            \/ (\E self \in Producers: prod(self))
+           \/ (\E self \in Readers: reader(self))
            \/ Terminating
 
 Spec == Init /\ [][Next]_vars
@@ -257,12 +359,12 @@ Termination == <>(\A self \in ProcSet: pc[self] = "Done")
 Acc(t) == CASE pc[t] = "p_rd"                 -> {<<"buffer", "r">>}
             [] pc[t] = "p_wr"                 -> {<<"buffer", "w">>}
             [] pc[t] \in {"c_move", "f_move"} -> {<<"buffer", "r">>, <<"buffer", "w">>}
-            [] pc[t] \in {"s_size", "e_empty"} -> {<<"buffer", "r">>}
+            [] pc[t] \in {"s_size", "e_empty", "rs_size", "re_empty"} -> {<<"buffer", "r">>}
             [] OTHER                          -> {}
 
 \* locks held there according to the source (scope of the lock_guard)
 Held(t) == IF pc[t] \in {"p_rd", "p_wr"} THEN (IF Locking THEN {"bufferMutex"} ELSE {})
-           ELSE IF pc[t] \in {"c_move", "f_move", "s_size", "e_empty"} THEN {"bufferMutex"}
+           ELSE IF pc[t] \in {"c_move", "f_move", "s_size", "e_empty", "rs_size", "re_empty"} THEN {"bufferMutex"}
            ELSE {}
 
 Conflict(a, b) == a[1] = b[1] /\ "w" \in {a[2], b[2]}
